@@ -104,6 +104,16 @@ def generate(rng, tier):
                     props = M.map_class(sg)().objs["hits"]._item_class()._props
                     ms["lists"]["hits"]["rows"] = M.gen_rows(rng, props, 2, ties=False)
                     ms["lists"]["hits"]["rows"][1]["offset"] = ms["lists"]["hits"]["rows"][0]["offset"] + 250.0
+            # a third of the charts carry values far outside what a game client honours (0x / negative / 25x / 0.005x scroll
+            # velocities, 1 bpm crawls, "teleport" tempo points): legal in the formats, and a converter must carry them as they are
+            for ms in maps:
+                if rng.random() < 0.35:
+                    for r_ in ms["lists"].get("svs", {}).get("rows", []):
+                        if "multiplier" in r_ and rng.random() < 0.6:
+                            r_["multiplier"] = float(rng.choice([0.0, -1.5, 25.0, 0.005, 100.0, 0.001, 12.5, -0.25]))
+                    for r_ in ms["lists"].get("bpms", {}).get("rows", []):
+                        if "bpm" in r_ and rng.random() < 0.4:
+                            r_["bpm"] = float(rng.choice([1.0, 0.5, 2000000.0, 5000.0, 12.0, 0.125]))
             hist = [rng.choice(HIST) for _ in range(rng.choice([0, 1, 1, 2]))]
             meta = {"title": rng.choice(WORDS[:5]), "artist": rng.choice(WORDS[:4]), "creator": rng.choice(WORDS[5:7]),
                     "diff": [rng.choice(["Hard", "Insane 7K", "Easy"]) for _ in range(nmaps)],
